@@ -348,3 +348,98 @@ def combine_visits_every_dimension(ctx):
     """Adding a dimension (still empty) changes nothing for the rights of the others (C01.combine-visits-every-dimension)."""
     from . import c01
     c01.combine_visits_every_dimension(ctx)
+
+
+def seq_parity(F, body, op, depth=0):
+    """Walk a sequence value (an iterator, or a Vec / Dict collected from one) back to the collection it ultimately enumerates:
+    (root local, root path, reversed?, partial?) — `reversed` is the parity of the `rev()` adaptors met on the way, through
+    intermediate `collect()`s and clones."""
+    from ..trans import chain_source, CHAIN_FLAGS, base_of
+    rev = False
+    partial = False
+    cur = op
+    for _ in range(6):
+        src = chain_source(F, body, cur)
+        fl = set(CHAIN_FLAGS[0])
+        if src is None:
+            return None
+        rev ^= ('rev' in fl)
+        partial |= ('partial' in fl)
+        l, path = src
+        ds = [d for d in body.defs().get(l, []) if d.kind == 'call']
+        if body.is_param(l) or not ds or path:
+            return (l, tuple(path), rev, partial)
+        c = ds[0].call
+        if c.is_(r'^std::iter::Iterator::collect$', r'^std::clone::Clone::clone$', r'^std::iter::FromIterator::from_iter$',
+                 r'^std::borrow::ToOwned::to_owned$') and c.args:
+            cur = c.args[0]
+            continue
+        return (l, tuple(path), rev, partial)
+    return None
+
+
+@rule('C03', 'add-keeps-rank-order')
+def add_keeps_rank_order(ctx):
+    """'A lower attribute never opens a higher one' across `add_attribute(.., after)`: the hierarchy is rebuilt as (attributes up
+    to `after`) + the new attribute + (the attributes above), and every one of these pieces must enumerate the old hierarchy in
+    its own order: on the way from the old dictionary to the new one, each piece goes through an even number of `rev()`s (the
+    upper piece is collected reversed and re-reversed when it is appended). The new attribute is inserted after the lower piece
+    is in place and before the upper piece is appended."""
+    F = ctx.F
+    key = 'abe_policy::dimension::Dimension::add_attribute'
+    body = F.fn(key)
+    DICT = r'data_struct::dictionary::Dict'
+    feeds = []          # (body, block, what, parity info)
+    for fb in lib.family_ext(F, key):
+        for c in fb.calls(r'^std::iter::Iterator::collect$', r'^std::iter::FromIterator::from_iter$'):
+            if re.search(DICT, c.full) and c.args:
+                feeds.append((fb, c.b, 'collected into the new dictionary', seq_parity(F, fb, c.args[0]), c.ln))
+        for c in fb.calls(r'dictionary::Dict::<K, V>::insert$'):
+            if fb.kind == 'Closure':
+                for (pb, cc, _i) in lib.closure_consumers(F, fb):
+                    if cc.is_(r'^std::iter::Iterator::') and cc.args and pb.key.startswith(key):
+                        feeds.append((pb, cc.b, 'inserted one by one (%s)' % cc.name.split('::')[-1], seq_parity(F, pb, cc.args[0]), c.ln))
+            else:
+                for s in copy_chain_sources(fb, c.args[1], through_calls=(r'^std::ops::Try::branch$',) + tuple(IDENTITY_CALLS)):
+                    if s[0] == 'call' and s[1].is_(r'^std::iter::Iterator::next$') and s[1].args:
+                        feeds.append((fb, c.b, 'inserted one by one (loop)', seq_parity(F, fb, s[1].args[0]), c.ln))
+    n = 0
+    main_feeds = []
+    for (fb, b, what, sp, ln) in feeds:
+        if sp is None:
+            continue
+        (rl, rpath, rev, partial) = sp
+        # only sequences that come from the old hierarchy (self)
+        roots = lib.copy_chain_sources(fb, {'cp': {'l': rl, 'p': []}}, through_calls=tuple(IDENTITY_CALLS)) if not fb.is_param(rl) else [('param', rl, ())]
+        if not any(s[0] == 'param' and s[1] == 1 for s in roots):
+            continue
+        n += 1
+        if fb is body:
+            main_feeds.append((b, partial))
+        ctx.check(not rev, key, 'old attributes %s in their own order' % what,
+                  'Dimension::add_attribute puts a piece of the old hierarchy into the new one in REVERSE order (line %d: an odd '
+                  'number of rev() between the old dictionary and the new one): the ranks of those attributes are swapped, and a key '
+                  'for a middle rank no longer receives the lower ones' % ln, 'even number of rev()', fb.where(ln))
+    ctx.floor(n, 2, 'pieces of the old hierarchy carried into the new one by Dimension::add_attribute')
+    # the new attribute goes in between
+    news = []
+    for c in body.calls(r'dictionary::Dict::<K, V>::insert$'):
+        if len(c.args) > 1 and any(s[0] == 'param' and s[1] == 2 for s in
+                                   lib.copy_chain_sources(body, c.args[1], through_calls=tuple(IDENTITY_CALLS))):
+            news.append(c)
+    ctx.floor(len(news), 1, 'insertion of the new attribute into the rebuilt hierarchy')
+    for c in news:
+        before = [b for (b, _p) in main_feeds if body.block_dominates(b, c.b)]
+        after = [b for (b, _p) in main_feeds if body.block_dominates(c.b, b)]
+        ctx.check(bool(before) and bool(after), key, 'new attribute inserted between the lower and the upper piece',
+                  'the new attribute is not inserted between the attributes up to `after` and the ones above (pieces before: %d, '
+                  'after: %d): it does not get the rank that was asked for' % (len(before), len(after)), 'lower piece, new, upper piece',
+                  body.where(c.ln))
+
+
+@rule('C03', 'hierarchy-order-on-the-wire')
+def hierarchy_order_on_the_wire(ctx):
+    """'across access-structure edits', reloads included: a hierarchy is written and read in rank order (C13.order / agree
+    restricted to Dimension and AccessStructure)."""
+    from . import c13
+    c13.restricted(ctx, r'(dimension::Dimension|AccessStructure)$', [c13.agree, c13.order])
